@@ -16,7 +16,7 @@ import (
 )
 
 // importAliases: package path -> import alias -> imported package path (file-level renames)
-var importAliases = map[string]map[string]string{}
+var importAliases = map[string]map[string][]string{}
 
 type Loaded struct {
 	prog  *ssa.Program
@@ -51,9 +51,12 @@ func loadRepo(repo string, patterns []string) (*Loaded, error) {
 			for _, im := range f.Imports {
 				if im.Name != nil && im.Name.Name != "_" && im.Name.Name != "." {
 					if importAliases[p.PkgPath] == nil {
-						importAliases[p.PkgPath] = map[string]string{}
+						importAliases[p.PkgPath] = map[string][]string{}
 					}
-					importAliases[p.PkgPath][im.Name.Name] = strings.Trim(im.Path.Value, "\"")
+					path := strings.Trim(im.Path.Value, "\"")
+					if !contains(importAliases[p.PkgPath][im.Name.Name], path) {
+						importAliases[p.PkgPath][im.Name.Name] = append(importAliases[p.PkgPath][im.Name.Name], path)
+					}
 				}
 			}
 		}
